@@ -506,6 +506,9 @@ func blockEscapes(info *types.Info, fn *core.FuncRef, is *ast.IfStmt, errExpr as
 		if storesErr(info, block, errExpr) {
 			return true, "stores the error and stops the iteration"
 		}
+		if handsToSink(info, block, errExpr) {
+			return true, "hands the error to an error sink and ends the goroutine"
+		}
 		return false, "returns from a function without error result and does not store the error"
 	case *ast.ExprStmt:
 		if call, ok := x.X.(*ast.CallExpr); ok {
